@@ -594,6 +594,8 @@ def render(specs, layout):
 def std_run(text):
     """the standard module as the oracle: (failed, attempted, TRACE)"""
     import doctest
+    if hasattr(builtins, '_'):
+        del builtins._
     ns, T = make_namespace()
     try:
         test = doctest.DocTestParser().get_doctest(text, ns, 't', 't.py', 0)
@@ -617,6 +619,10 @@ def std_run(text):
 def xdoc_run(text, defaults=None):
     """the same text through xdoctest: dict(collected, passed, failed, T, exc)"""
     from xdoctest import core
+    # `single`-mode parts go through CPython's display hook, which binds builtins._ for the whole process: every run starts
+    # without it (otherwise the verdict of a text that reads `_` would depend on what this PROCESS evaluated before)
+    if hasattr(builtins, '_'):
+        del builtins._
     with contextlib.redirect_stdout(io.StringIO()), contextlib.redirect_stderr(io.StringIO()):
         try:
             exs = list(core.parse_docstr_examples(text, callname='t', modpath=None, style='freeform'))
